@@ -70,7 +70,8 @@ def _plan(draw, max_rows):
             c = cols[j]
             # "" (the string NA sentinel) and None on object columns are ordinary == matches in NumPy;
             # the statement does not fix their semantics, so they are not used as filter values.
-            sentinel = lambda x: (c["kind"] in ("s", "u") and x == "") or (c["kind"] in ("o", "oi", "ob") and x is None)
+            # (NumPy also strips trailing NULs from a *scalar* compared with a string array: 'a\0' == 'a'.)
+            sentinel = lambda x: (c["kind"] in ("s", "u") and (x == "" or x.endswith("\x00"))) or (c["kind"] in ("o", "oi", "ob") and x is None)
             cand = [v for v in c["vals"] if not sentinel(v)]
             src = st.sampled_from(cand) if cand and draw(st.integers(0, 3)) else gen.value(c["kind"], "tight")
             v = draw(src)
@@ -305,6 +306,31 @@ def check(plan, ctx):
 
     if build.snap_frame(data) != before:
         raise Violation(f"{name} changed its receiver")
+    if name in ("drop_na", "unique") and op.get("cols") and n and not plan.get("_second"):
+        # history: the same frame is edited in place (a missing key cell filled, a filled one blanked), then queried again
+        fp2 = {"n": n, "cols": [dict(c, vals=list(c["vals"])) for c in fp["cols"]]}
+        edited = False
+        for c in fp2["cols"]:
+            if c["name"] not in op["cols"] or c["kind"] not in ("f", "s", "d", "t", "td", "o", "ob", "oi"):
+                continue
+            miss = [j for j, v in enumerate(c["vals"]) if build.plan_isna(c["kind"], v)]
+            full = [j for j, v in enumerate(c["vals"]) if not build.plan_isna(c["kind"], v)]
+            if miss and full:
+                c["vals"][miss[0]] = c["vals"][full[0]]
+                data[c["name"]][miss[0]] = data[c["name"]][full[0]]
+                edited = True
+            if len(full) > 1:
+                c["vals"][full[-1]] = gen.NA_VALUE[c["kind"]]
+                data[c["name"]][full[-1]] = data[c["name"]].na_value
+                edited = True
+        if edited:
+            ctx.cls("queried_again_after_in_place_edit")
+            real = getattr(data, name)(*op["cols"])
+            want = _expected({"frame": fp2, "op": op})
+            got = [int(x) for x in np.asarray(real["_rid_"])]
+            if got != want:
+                raise Violation(f"after an in-place edit of the same frame: {name}: kept rows differ from the reference",
+                                got=got, want=want, op=op)
     if n == 0:
         ctx.cls("empty_frame")
     if 0 < len(set(rids)) < n:
